@@ -173,7 +173,7 @@ func init() {
 		explanation: "Decides: S1 — every store into a field of the exported *StreamStats structs in the recorder's record* methods is dominated by a branch condition computed from the recorder's own SSRC (header SSRC, MediaSSRC, report SSRC or DestinationSSRC membership compared with r.ssrc): a counter only moves for traffic addressed to that SSRC; S2 — the loops over the packets of a compound RTCP have no early exit (every packet of the compound is visited); S3 — no branch inside such a loop tests a loop-carried boolean that was computed from the recorder's SSRC for an earlier packet (each packet is judged by itself); " +
 			"A1/A2 on the four stats closures — every forwarded / successfully read packet is handed to the recorder exactly once and a failed read never is; C1/C6 — latestStats is only read and updated under recorder.ms in one critical section (no lost update).",
 		notDecided:  "every formula: packets lost as expected-minus-received, jitter, RTT from LSR/DLSR and DLRR, fraction lost, NTP conversions — numerical",
-		sels:        []sel{s("S1"), s("S2"), s("S3"), s("A1", `stats\.`), s("A2", `stats\.`), s("C1", `stats\.`), s("C6", `stats\.`)},
+		sels:        []sel{s("S1"), s("S2"), s("S3"), s("S4"), s("A1", `stats\.`), s("A2", `stats\.`), s("C1", `stats\.`), s("C6", `stats\.`)},
 		assumptions: std,
 	}
 }
